@@ -13,6 +13,7 @@ import inspect
 import json
 import multiprocessing as mp
 import os
+import subprocess
 import sys
 import time
 import traceback
@@ -30,6 +31,9 @@ NPROC = int(os.environ.get("VERIF_JOBS", "0")) or min(16, os.cpu_count() or 4)
 
 
 def harness_module(prop):
+    from vf import instrument
+    if not any(m == "ombott" or m.startswith("ombott.") for m in sys.modules):
+        instrument.apply_build()          # VERIF_OMBOTT_BUILD=O: ombott compiled as `python -O` runs it
     names = [n[:-3] for n in os.listdir(os.path.join(ROOT, "harness"))
              if n.lower().startswith(prop.lower()) and n.endswith(".py")]
     if not names:
@@ -148,8 +152,11 @@ def main(argv=None):
 
 
 def replay(path):
-    from vf import engine
     rec = json.load(open(path))
+    if rec.get("build", "") != os.environ.get("VERIF_OMBOTT_BUILD", ""):      # found under another build of ombott
+        env = dict(os.environ, VERIF_OMBOTT_BUILD=rec.get("build", ""))
+        return subprocess.call([sys.executable, "-m", "vf.run", "--replay", path], env=env, cwd=ROOT)
+    from vf import engine
     mod = harness_module(rec["property"])
     q = _find_query(mod, rec["tier"], rec["qid"])
     args = engine.from_jsonable(rec["args"])
@@ -164,6 +171,7 @@ def replay(path):
 
 
 def check(prop, tier, only=None, list_only=False):
+    BUILD = os.environ.get("VERIF_OMBOTT_BUILD", "")
     import fnmatch
     from vf import engine, findings
     t0 = time.time()
@@ -171,7 +179,7 @@ def check(prop, tier, only=None, list_only=False):
     mod = harness_module(prop)
     qs = mod.queries(tier)
     if only:
-        qs = [q for q in qs if fnmatch.fnmatchcase(q.qid, only)]
+        qs = [q for q in qs if any(fnmatch.fnmatchcase(q.qid, pat) for pat in only.split('|'))]
     if list_only:
         for q in qs:
             print(q.qid, "|", q.bound, "| timeout", q.timeout)
@@ -183,7 +191,7 @@ def check(prop, tier, only=None, list_only=False):
     evdir = os.path.join(ROOT, "evidence")
     os.makedirs(os.path.join(evdir, "replays"), exist_ok=True)
     for fn in os.listdir(os.path.join(evdir, "replays")):      # stale replays of earlier runs of this property/tier
-        if fn.startswith("%s-%s-" % (prop, tier)):
+        if fn.startswith("%s-%s%s-" % (prop, tier, BUILD and "-" + BUILD)) and (BUILD or fn[len(prop) + len(tier) + 2:][:1].isdigit()):
             os.remove(os.path.join(evdir, "replays", fn))
 
     machinery_errors = []
@@ -257,8 +265,8 @@ def check(prop, tier, only=None, list_only=False):
                 nxt.append((q, ex + [hit.when]))
             else:
                 n = len(violations) + 1
-                path = os.path.join(evdir, "replays", "%s-%s-%d.json" % (prop, tier, n))
-                json.dump({"property": prop, "tier": tier, "qid": q.qid, "args": cx["args"],
+                path = os.path.join(evdir, "replays", "%s-%s%s-%d.json" % (prop, tier, BUILD and "-" + BUILD, n))
+                json.dump({"property": prop, "tier": tier, "build": BUILD, "qid": q.qid, "args": cx["args"],
                            "detail": detail, "bound": q.bound}, open(path, "w"), indent=1)
                 violations.append({"query": q.qid, "args": cx["args"], "detail": detail, "replay": path})
                 print("VIOLATION property=%s replay=%s" % (prop, path), flush=True)
@@ -280,8 +288,8 @@ def check(prop, tier, only=None, list_only=False):
             elif st == "fail" and not any(k.matches(qid, args) for k in known):
                 # a concrete failing input that symbolic execution judged fine: report it, it is real
                 n = len(violations) + 1
-                path = os.path.join(evdir, "replays", "%s-%s-%d.json" % (prop, tier, n))
-                json.dump({"property": prop, "tier": tier, "qid": qid, "args": s, "detail": detail,
+                path = os.path.join(evdir, "replays", "%s-%s%s-%d.json" % (prop, tier, BUILD and "-" + BUILD, n))
+                json.dump({"property": prop, "tier": tier, "build": BUILD, "qid": qid, "args": s, "detail": detail,
                            "bound": q.bound, "note": "found by native replay of a solver sample"}, open(path, "w"), indent=1)
                 violations.append({"query": qid, "args": s, "detail": detail, "replay": path})
                 print("VIOLATION property=%s replay=%s" % (prop, path), flush=True)
@@ -343,7 +351,34 @@ def check(prop, tier, only=None, list_only=False):
         "assumptions": getattr(mod, "ASSUMPTIONS", []),
         "wall_s": wall, "violations": len(violations),
     }
-    json.dump(ev, open(os.path.join(evdir, "%s.json" % prop), "w"), indent=1)
+    rc_builds = 0
+    if BUILD:
+        ev["coverage"]["build"] = "ombott compiled at optimisation level 1 (python -O: assert statements removed)"
+    else:
+        # the same check (or the listed part of it) against other builds of the package: each in a process of its own
+        for b, pattern in sorted(getattr(mod, "ALSO_BUILDS", {}).items()):
+            if only:
+                continue
+            out_path = os.path.join(evdir, "replays", ".%s-%s-%s.json" % (prop, tier, b))
+            env = dict(os.environ, VERIF_OMBOTT_BUILD=b, VERIF_EVIDENCE_OUT=out_path)
+            cmd = [sys.executable, "-m", "vf.run", prop, "--tier", tier] + (["--only", pattern] if pattern else [])
+            p = subprocess.run(cmd, env=env, cwd=ROOT, capture_output=True, text=True)
+            sys.stdout.write("".join("[build %s] %s\n" % (b, ln) if not ln.startswith("VIOLATION") else ln + "\n"
+                                     for ln in p.stdout.splitlines()))
+            rc_builds = max(rc_builds, p.returncode)
+            try:
+                sub = json.load(open(out_path))
+                os.remove(out_path)
+                ev["coverage"].setdefault("other_builds", {})[b] = {
+                    "build": sub["coverage"].get("build"), "queries_by_status": sub["coverage"]["queries_by_status"],
+                    "queries": sub["coverage"]["queries"], "paths": sub["coverage"]["evaluations"],
+                    "solver_checks": sub["coverage"]["solver_checks"], "solver_seconds": sub["coverage"]["solver_seconds"],
+                    "violations_detail": sub["coverage"]["violations_detail"], "machinery_errors": sub["coverage"]["machinery_errors"],
+                    "exit": p.returncode}
+                ev["violations"] += sub["violations"]
+            except Exception as e:  # noqa
+                machinery_errors.append("build %s: no evidence from the sub-run (exit %s): %s %s" % (b, p.returncode, e, p.stderr[-300:]))
+    json.dump(ev, open(os.environ.get("VERIF_EVIDENCE_OUT") or os.path.join(evdir, "%s.json" % prop), "w"), indent=1)
     print("%s %s: %d queries %s, %d paths, %d z3 checks (%.1fs solver), %d native replays, wall %.1fs" % (
         prop, tier, len(qs), counts, total_paths, z3_checks, ev["coverage"]["solver_seconds"], validated, wall))
     for r in qsum:
@@ -352,9 +387,9 @@ def check(prop, tier, only=None, list_only=False):
                                                         (r["error"] or "")[:300].replace("\n", " | ")))
     for e in machinery_errors:
         print("MACHINERY-ERROR:", e)
-    if violations:
+    if violations or rc_builds == 1:
         return 1
-    if machinery_errors:
+    if machinery_errors or rc_builds:
         return 3
     return 0
 
